@@ -183,6 +183,15 @@ def parse_sources_loads(L, rep):
         p = L.peek()
         if p is None:
             break
+        if not p.strip():
+            # a load attached to an object without pulses prints an empty line
+            j = L.i
+            while j < len(L.l) and not L.l[j].strip():
+                j += 1
+            if j < len(L.l) and L.l[j].startswith('PULSE NO.,'):
+                L.i = j
+                continue
+            break
         m = re.match(r'^PULSE NO\.,RESISTANCE,REACTANCE: +(\d+) , +(\S+) +, +(\S+) *$', p)
         if m:
             rep['loads'].append({'pulse': int(m.group(1)), 'r': num(m.group(2)), 'x': num(m.group(3))})
